@@ -3,7 +3,7 @@
 (* so that it can serve as the oracle for the observed code.                  *)
 EXTENDS C07Types
 VARIABLES a, b, c
-Init == a \in U1 /\ b \in U1 /\ c \in U0 \cup {TList(TDyn), TList(TStr), TObj([a |-> TDyn]), TObjOpt([a |-> TStr], <<"a">>), TObj([a |-> TStr])}
+Init == a \in U1 /\ b \in U1 /\ c \in {TDyn, TStr, TList(TDyn), TObj([a |-> TDyn]), TObjOpt([a |-> TStr], <<"a">>)}
 Next == UNCHANGED <<a, b, c>>
 EqIsIdentity == TEquals(a, b) <=> (a = b)
 EqEquivalence == TEquals(a, a) /\ (TEquals(a, b) <=> TEquals(b, a)) /\ (TEquals(a, c) /\ TEquals(c, b) => TEquals(a, b))
